@@ -895,7 +895,9 @@ class Program:
 # ===================================================================== C: generated driver program
 def c_driver_source(p: Program) -> str:
     s = p.main
-    src = [C.shim_source(s, f"{s.base()}_bp.h", p.prefix, json=False)]
+    # the shim assigns leaf by leaf (straight-line code gcc optimises very slowly): the driver itself is always
+    # compiled -O0; the flag set under test applies to the generated code and to bitproto.c
+    src = ['#pragma GCC optimize ("O0")', C.shim_source(s, f"{s.base()}_bp.h", p.prefix, json=False)]
     src.append("#include <stdio.h>\n#include <stdlib.h>\ntypedef unsigned long long u64;")
     maxleaves = 1
     for k, m in enumerate(p.messages):
@@ -992,9 +994,12 @@ def c_build_and_run(p: Program, sc: R.Scratch, cflags: Tuple[str, ...], cases: L
         f.write("\n".join(lines) + "\n")
     csrc = [n for n in p.c_out if n.endswith(".c")]
     args = list(cflags) + ["-w", "-I", C.LIBC_DIR, "-I", d] + csrc + ["driver.c", C.runtime_object(sc, cflags), "-o", "drv"]
+    tg = time.time()
     ok, err = C.run_gcc(args, d)
+    tg = time.time() - tg
     if not ok:
         return {"build_error": err}
+    tr = time.time()
     try:
         pr = subprocess.run([os.path.join(d, "drv"), "cases.txt", str(outcap)], cwd=d, capture_output=True, timeout=300)
     except subprocess.TimeoutExpired:
@@ -1018,7 +1023,8 @@ def c_build_and_run(p: Program, sc: R.Scratch, cflags: Tuple[str, ...], cases: L
             recs.append({"n": n, "slen": sl, "guard": guard, "og": og, "back": back, "text": text})
     except ValueError:
         pass
-    return {"rc": pr.returncode, "stderr": pr.stderr[-500:].decode("latin-1"), "records": recs}
+    return {"rc": pr.returncode, "stderr": pr.stderr[-500:].decode("latin-1"), "records": recs,
+            "gcc_s": round(tg, 2), "driver_s": round(time.time() - tr, 2), "driver_c_lines": None}
 
 
 # ===================================================================== Python: generated module
@@ -1120,7 +1126,7 @@ def check(run: common.Run, drv: common.Driver, rng: random.Random, tier: str) ->
     _uid[0] = 0
     _width_variant[0] = 0
     timing: Dict[str, Any] = {"generate_compile_values": 0.0, "python_checks": 0.0, "waiting_for_gcc_and_driver": 0.0, "c_checks": 0.0,
-                              "slowest_program": (0.0, "", 0)}
+                              "slowest_program": (0.0, "", 0, "", "", "")}
     state: Dict[str, Any] = {"py_c_equal": 0, "compile_errors": [], "namelens": set()}
     with R.Scratch("bpv-c16-") as sc, cf.ThreadPoolExecutor(16) as pool:
         for flags in CFLAG_SETS:
@@ -1160,8 +1166,6 @@ def check(run: common.Run, drv: common.Driver, rng: random.Random, tier: str) ->
                             cases.append(CCase(mi, vi, 1, 0x00))
                         longest = max(longest, len(dump(expected_msg(m, v))))
                 cflags = rng.choice(CFLAG_SETS)
-                if max(G.leaf_count(G.TRef(m)) for m in p.messages) > 3000:
-                    cflags = ("-O0",)  # the shim assigns leaf by leaf: straight-line code gcc optimises slowly
                 outcap = 2 * longest + 4096
                 fut = pool.submit(c_build_and_run, p, sc, cflags, cases, values, outcap)
                 jobs.append((p, values, kinds, cases, cflags, fut))
@@ -1179,7 +1183,9 @@ def check(run: common.Run, drv: common.Driver, rng: random.Random, tier: str) ->
                 timing["python_checks"] += t2 - t1
                 timing["waiting_for_gcc_and_driver"] += t3 - t2
                 timing["c_checks"] += t4 - t3
-                timing["slowest_program"] = max(timing["slowest_program"], (round(t4 - t1, 2), p.tags[0], p.idx))
+                timing["slowest_program"] = max(timing["slowest_program"], (round(t4 - t1, 2), p.tags[0], p.idx, " ".join(cflags),
+                                                                            f"gcc {res.get('gcc_s')}s driver {res.get('driver_s')}s",
+                                                                            f"{sum(G.leaf_count(G.TRef(m)) for m in p.messages)} leaves, {len(cases)} C cases"))
     dist0 = run.coverage.get("distribution", {})
     unusable = sum(dist0.get(k, 0) for k in ("skipped:compiler-rejected-program", "skipped:generated-c-does-not-compile",
                                                "skipped:python-module-does-not-load"))
